@@ -247,10 +247,17 @@ class Run:
         self.current_action["kind_taken"] = kind
         accepted = None if r is None else (r.d == 0)
         occ = [x["tid"] for x in ts if x["nid"] == t["nid"]].index(t["tid"])
-        self.log.append(dict(target=t["nid"], target_state=t["state"], target_kind=t["kind"], action=kind, accepted=accepted, options=opts, occurrence=occ))
+        self.log.append(dict(target=t["nid"], target_state=t["state"], target_kind=t["kind"], action=kind, accepted=accepted, options=opts, occurrence=occ,
+                             dyn_index=self.dyn_index(t, ts)))
         self.after_action(t, kind, accepted, before, nmsg, ntrace)
         self.current_action = None
         return True
+
+    def dyn_index(self, t, ts):
+        if self.node_attr(t["nid"]) is not None:
+            return None
+        dyn = [x["tid"] for x in sorted(ts, key=lambda x: x["timestamp"]) if self.node_attr(x["nid"]) is None]
+        return dyn.index(t["tid"])
 
     def snapshot(self):
         return {t["tid"]: (t["state"], repr(t["data"]), repr(t["err"])) for t in self.tasks()}
@@ -277,7 +284,8 @@ class Run:
                 self.on_answer_rejected(t, r)
                 break
             occ = [x["tid"] for x in self.tasks() if x["nid"] == t["nid"]].index(t["tid"])
-            self.log.append(dict(answer=t["nid"], accepted=None if r is None else r.d == 0, options=self.outputs_for(t), occurrence=occ))
+            self.log.append(dict(answer=t["nid"], accepted=None if r is None else r.d == 0, options=self.outputs_for(t), occurrence=occ,
+                                 dyn_index=self.dyn_index(t, self.tasks())))
             W.drain()
             self.at_quiescence("answer%d" % n)
 
@@ -425,13 +433,59 @@ class Run:
             if t["state"] == "Completed" and t["kind"] in ("Workflow", "Step", "Branch", "Act"):
                 for d in self.descendants(t, ts, by_tid):
                     if d["state"] not in TERMINAL and not d["data"].get("$is_event_processed"):
-                        self.viol("completed-over-open:%s>%s=%s" % (t["kind"], d["kind"], d["state"]),
+                        self.viol("completed-over-open:%s" % self.open_cause(d, ts, None),
                                   "%s %s is completed while %s %s beneath it is %s" % (t["kind"], t["nid"], d["kind"], d["nid"], d["state"]))
         if terms and terms[0][0] == "complete":
             left = [t for t in ts if t["state"] not in TERMINAL and not t["data"].get("$is_event_processed")]
-            if left:
-                self.viol("open-after-%s:%s" % (terms[0][1]["state"], ",".join(sorted("%s=%s" % (t["kind"], t["state"]) for t in left))),
+            for d in left:
+                self.viol("open-after-terminal-event:%s" % self.open_cause(d, ts, terms[0][1]["state"]),
                           "terminal event (%s) delivered while tasks are still open: %s" % (terms[0][1]["state"], [(t["nid"], t["state"]) for t in left]))
+
+    def open_cause(self, d, ts, ending):
+        """Mechanism class of a task left open.  Specific classes are only given to precisely identified
+        mechanisms; everything else falls back to a structural description so that it is reported."""
+        by_tid = {t["tid"]: t for t in ts}
+        hist = [e for e in self.log if e.get("action") and e.get("accepted")]
+        did = lambda k, pred=lambda e: True: any(e["action"] == k and pred(e) for e in hist)
+        p = self.parent_of(d, by_tid)
+        dynamic = self.node_attr(d["nid"]) is None
+        if dynamic and p is not None and p["kind"] == "Step" and p["state"] in TERMINAL and did("Push", lambda e: e.get("target_state") in TERMINAL and e.get("target") == p["nid"]):
+            return "act-pushed-into-finished-step"
+        if d["kind"] == "Act" and p is not None and p["kind"] == "Step" and did("Push", lambda e: e.get("target") == p["nid"]) and d["prev"] != p["tid"]:
+            return "step-completed-past-chained-act-after-push"
+        if did("Back"):
+            same = [x for x in ts if x["nid"] == d["nid"]]
+            if d["kind"] == "Step" and len(same) > 1 and same[-1]["tid"] != d["tid"] and d["state"] == "Running":
+                return "stale-step-instance-after-back"
+            q = d
+            while q is not None:
+                sm = [x for x in ts if x["nid"] == q["nid"]]
+                if len(sm) > 1:
+                    return "duplicate-flow-after-back"
+                q = self.parent_of(q, by_tid)
+        if self.in_catch_subtree(d["nid"]) and any(e.get("target_state") == "Running" and e["action"] in ("Next", "Submit", "Remove", "Skip") for e in hist):
+            return "catch-steps-left-open-after-closing-running-act"
+        if ending == "Aborted" and did("Abort"):
+            return "open-sibling-after-abort"
+        return "%s=%s under %s" % (d["kind"], d["state"], ("%s=%s" % (p["kind"], p["state"])) if p is not None else "root")
+
+    def in_catch_subtree(self, nid):
+        def walk(n, inside):
+            if n.get("id") == nid:
+                return inside
+            for key in ("steps", "branches", "acts"):
+                for s in n.get(key, []):
+                    r = walk(s, inside)
+                    if r is not None:
+                        return r
+            for c in n.get("catches", []) + n.get("timeout", []):
+                for s in c.get("steps", []):
+                    r = walk(s, True)
+                    if r is not None:
+                        return r
+            return None
+
+        return bool(walk(self.model, False))
 
     def descendants(self, t, ts, by_tid):
         out = []
@@ -628,7 +682,7 @@ def run_scenario(I, name, cfg_kw, prop):
             if v.role in seen:
                 v.confirmed, v.replay = seen[v.role]
                 continue
-            if len(seen) >= 4:
+            if len(seen) >= 8:
                 v.confirmed, v.replay = None, None
                 continue
             okc, info = confirm(v, name, cfg, prop)
@@ -729,23 +783,23 @@ class ReplayRun(Run):
         pass
 
     def r_c02(self, v, obs):
-        """Without the transition hook the real engine shows a state history only through its message
-        stream and the final task list: look for old followed by new on a task of the same kind."""
-        parts = v.role.split(":")
-        if parts[0] not in ("rewrite-after-terminal", "backward") or not v.detail:
-            return
-        old, new, kind = v.detail["old"], v.detail["new"], v.detail["kind"]
-        for t in self.tasks():
-            if t["kind"] != kind:
+        """The same lifecycle oracle on the state-write trace of the real engine (verif hook)."""
+        revived = set()
+        for e in obs["trace"]:
+            old, new = e["old"], e["new"]
+            if old == new or old not in RANK or new not in RANK:
                 continue
-            seq = [m["state"] for m in obs["messages"] if m["tid"] == t["tid"] and m["nid"] == t["nid"]]
-            seq = ["Interrupt" if (x == "Created" and kind == "Act") else x for x in seq]
-            seq.append(t["state"])
-            d = [x for i, x in enumerate(seq) if i == 0 or seq[i - 1] != x]
-            for i in range(len(d) - 1):
-                if d[i] == old and new in d[i + 1 :]:
-                    self.found.append((v.role, "observed %s on %s" % (d, t["nid"])))
-                    return
+            if RANK[new] < RANK[old]:
+                if old == "Error" and new == "Running" and e["tid"] not in revived:
+                    revived.add(e["tid"])
+                    continue
+                self.found.append(("backward:%s->%s:%s" % (old, new, e["kind"]), "trace"))
+            elif old in TERMINAL:
+                self.found.append(("rewrite-after-terminal:%s" % e["kind"], "trace %s->%s" % (old, new)))
+        # roles carry the action kind as last segment, which the trace does not show: compare without it
+        want = ":".join(v.role.split(":")[:-1])
+        if any(r == want for r, d in self.found):
+            self.found.append((v.role, "matched on the real state-write trace"))
 
 
 def concrete_inputs(run_inputs, model):
@@ -780,15 +834,27 @@ def confirm(v, name, cfg, prop, attempts=None):
                 last = out["error"]
                 continue
             obs = replay.normalise(out)
-            rr = ReplayRun(name, cfg, prop, obs, model)
+            roles = []
+            views = []
+            for sn in obs["snapshots"]:
+                if sn["procs"]:
+                    views.append(dict(obs, procs=sn["procs"], messages=obs["messages"][: sn["nmsg"]], events=obs["events"][: sn["nevents"]]))
+            views.append(obs)
+            rr = None
+            for view in views:
+                rr = ReplayRun(name, cfg, prop, view, model)
+                rr.log = script
+                for o in cfg.oracles:
+                    f = getattr(rr, "q_" + o, None)
+                    if f:
+                        f("replay")
+                roles += [r for r, d in rr.found]
             for o in cfg.oracles:
-                f = getattr(rr, "q_" + o, None)
-                if f:
-                    f("replay")
                 f = getattr(rr, "r_" + o, None)
                 if f:
+                    rr.found = []
                     f(v, obs)
-            roles = [r for r, d in rr.found]
+                    roles += [r for r, d in rr.found]
             tried.append(dict(threads=th, roles=roles, tasks=[(t["nid"], t["state"]) for t in rr.tasks()], results=[(r.get("op"), r.get("ok")) for r in obs["results"]]))
             if v.role in roles:
                 return True, dict(threads=th, scenario=sc, observed=tried[-1])
